@@ -1,31 +1,27 @@
-(* Closures6.v — C01: fragment 4 = the fragment with CLOSURES AS VALUES (Closures3.v) extended with
-   lambda BODIES OF SEVERAL EXPRESSIONS: (lambda (x1 ... xn) e1 ... ek), k >= 1, no ei a define form;
-   e1 .. e(k-1) are evaluated for effect in non-tail position, ek in tail position gives the value.
-   This file is a port of Closures3.v (same structure, constants renamed from ...3 to ...4, Y.. to Z..).
+(* Closures6.v — C01 (work package c01d): FRAGMENT 6 = fragment 4 (closures as values with capture,
+   lambda bodies of several expressions, Closures4.v) + set! ON LOCAL VARIABLES (parameters of the
+   current lambda or variables captured from enclosing lambdas).
 
-   The header of Closures3.v:
-
-     e ::= c | (quote d) | (if e e e) | (if e e) | x | (define x e) | (set! x e)     (x global in define/set!)
-         | (lambda (x1 ... xn) body)        in ANY expression position; body: one expression of the fragment
-                                            [FRAGMENT 4: body = e1 ... ek, k >= 1, no ei a define form]
+     e ::= c | (quote d) | (if e e e) | (if e e) | x | (define x e)          (x global in define)
+         | (set! x e)                       x bound by the scope: the LOCATION of x is assigned; else the global x
+         | (lambda (x1 ... xn) e1 ... ek)   k >= 1, no ei a define form
          | (e0 e1 ... en)                   e0 evaluates to a builtin procedure or to a closure
 
-   A variable is a parameter of an enclosing lambda (captured by the inner lambdas that mention
-   it) or a global.  How marwood compiles this (compile.rs:424-460, environment.rs:94-125,
-   run.rs:518-578): the environment map of a lambda is its own parameters followed by those FREE
-   SYMBOLS of the lambda expression (the compiler's analysis, environment.rs:355-451) that the
-   environment map of the enclosing lambda binds; CLOSURE builds a closure environment whose
-   captured slots are POINTERS (environment address, slot) to the slot of the activation
-   environment that owns the variable (an existing pointer is copied: at most one indirection);
-   ENTER copies the arguments and those pointers into a new activation environment; a variable
-   reference is MOV (lexical slot i) %acc, which follows at most one pointer.
+   Reference semantics WITH A STORE OF LOCATIONS ([ref_eval6], after Closures5.ref_eval5, with body
+   lists as in ref_eval4): the environment of an activation is a list of locations, an application
+   allocates fresh locations for the parameters at the end of the store, a lambda expression captures
+   LOCATIONS, a local set! overwrites the store.  Values [rval6] are not recursive.
 
-   This file: the syntax [expr6], the values [rval6] (data, builtins, closures = parameters,
-   captured names, body, captured values), the reference semantics [ref_eval6], the
-   representation relation [vrep6] and its stability, the static context [hdr6].
-   The compile-time theorem is in Proofs/CompileStatic3.v, the exec lemmas of the basic forms in
-   Proofs/CompileCorrect3.v, the run-time theorem (by induction on the reference derivation),
-   Vm::eval and the examples in Proofs/EvalFragment3.v.                                        *)
+   Machine side: a LOCATION MAP mu : list (N * N) (location l |-> heap address of the VLexEnv cell of
+   an activation environment, slot) that only grows; [vrep6 mu] (a closure's captured slots are the
+   POINTERS mu gives to the captured locations, nothing about their content), [store_rel mu sg]
+   (the content of every location, injectivity on (environment id, slot)), [genv_rel6], [lrel6]
+   (slot i of the running activation IS location lv[i] or POINTS to it), the frame condition
+   [wext]/[frame6] (pointer slots keep their pointer, direct slots stay direct) replacing
+   rext/frame2, the outcomes [ok_n6]/[ok_t6] and [exec6].
+   Ported from Closures4.v (constants renamed ...4 -> ...6, Z.. -> W.., suffix 6 otherwise).
+   CompileStatic6.v: compile-time theorem; CompileCorrect6.v: exec lemmas of the basic forms and of
+   local set!; EvalFragment6.v: closures, the induction, Vm::eval, the counter.              *)
 From Coq Require Import String Lia FMapPositive.
 From MW Require Import Model.Base Model.F64 Model.Num Model.Datum Model.TransformDef Model.Transform
   Model.VmTypes Model.Heap Model.Gc Model.VmBase Model.Compile Model.Vm
